@@ -47,7 +47,61 @@ package filtering
 //@   modifies *
 //@   callsite os.ReadFile(name) requires name == f.FilePath
 
+// The patterns in force are exactly the configured ones, in order - in particular none when none is configured (then no
+// local file is readable at all).  Stated as the invariant of the loop of New that copies them; d.safeFSPatterns has no
+// other assignment in the package.
+//@ func newIDGenerator(seed int32) (g *idGenerator)
+//@   property C17
+//@   ensures g != nil && fresh(g)
+//@   modifies nothing
+//@ func New(c *Config, blockFilters []Filter) (d *DNSFilter, err error)
+//@   property C17
+//@   modifies *
+//@   loop 1 invariant d != nil && fresh(d) && 0 <= #i && #i <= len(c.SafeFSPatterns) && len(d.safeFSPatterns) == #i
+//@   loop 1 invariant #i == 0 ==> cap(d.safeFSPatterns) == 0
+//@   loop 1 invariant #i > 0 ==> fresh(arrayOf(d.safeFSPatterns))
+//@   loop 1 invariant c.SafeFSPatterns == old(c.SafeFSPatterns) && (forall k int :: 0 <= k && k < len(c.SafeFSPatterns) ==> c.SafeFSPatterns[k] == old(c.SafeFSPatterns[k]))
+//@   loop 1 invariant forall k int :: 0 <= k && k < #i ==> d.safeFSPatterns[k] == c.SafeFSPatterns[k]
+
 //@ sweep C17 os.Open, os.ReadFile, os.OpenFile
+
+// ---- C01 (list switches): a list that is switched off is unloaded ----
+// Representation invariant of the configured lists: a disabled list has no checksum (and no rule count).  It is what makes
+// switching an unchanged list back on look like an update, so that the engines are rebuilt *with* it: a disabled list that
+// kept its checksum would be "enabled" in the configuration and absent from the engine.
+//@ define unloadedIfDisabled(fs []FilterYAML) bool = forall k int :: {mark(k)} 0 <= k && k < len(fs) ==> (fs[k].Enabled || fs[k].checksum == 0)
+//@ func (filter *FilterYAML) unload()
+//@   property C01
+//@   ensures filter.checksum == 0 && filter.RulesCount == 0
+//@   modifies filter.RulesCount, filter.checksum
+//@ func (d *DNSFilter) filterExistsLocked(url string) (ok bool)
+//@   pure-function
+//@   modifies nothing
+//@ func (d *DNSFilter) filterSetProperties(listURL string, newList FilterYAML, isAllowlist bool) (shouldRestart bool, err error)
+//@   property C01
+//@   requires !held(d.conf.filtersMu) && !rheld(d.conf.filtersMu)
+//@   requires unloadedIfDisabled(isAllowlist ? d.conf.WhitelistFilters : d.conf.Filters)
+//@   ensures disabled-lists-stay-unloaded: err == nil ==> unloadedIfDisabled(isAllowlist ? d.conf.WhitelistFilters : d.conf.Filters)
+//@   modifies *
+
+// ---- C18: every list of blocked services is applied under its own pause schedule ----
+// The global list under the global schedule, a client's own list under that client's schedule - and only while the
+// schedule consulted for it is not pausing.
+//@ func (d *DNSFilter) ApplyBlockedServicesList(setts *Settings, list []string)
+//@   property C18
+//@   modifies *
+//@ func (d *DNSFilter) ApplyBlockedServices(setts *Settings)
+//@   property C18
+//@   requires !held(d.confMu) && !rheld(d.confMu)
+//@   requires d.conf.BlockedServices != nil && d.conf.BlockedServices.Schedule != nil
+//@   callsite (*github.com/AdguardTeam/AdGuardHome/internal/filtering.DNSFilter).ApplyBlockedServicesList(dd, st, ids) requires global-list-under-global-schedule: ids == d.conf.BlockedServices.IDs && lastSched == d.conf.BlockedServices.Schedule && !lastPaused
+//@   modifies *
+//@ func (d *DNSFilter) ApplyAdditionalFiltering(cliAddr netip.Addr, clientID string, setts *Settings)
+//@   property C18
+//@   requires !held(d.confMu) && !rheld(d.confMu)
+//@   requires d.conf.BlockedServices != nil && d.conf.BlockedServices.Schedule != nil
+//@   callsite (*github.com/AdguardTeam/AdGuardHome/internal/filtering.DNSFilter).ApplyBlockedServicesList(dd, st, ids) requires own-list-under-own-schedule: ids == setts.BlockedServices.IDs && lastSched == setts.BlockedServices.Schedule && !lastPaused
+//@   modifies *
 
 // ---- C14 / C15: filter files are replaced atomically, and only after a successful parse of changed content ----
 
@@ -72,6 +126,22 @@ package filtering
 
 //@ sweep C14 os.WriteFile, os.Create, os.OpenFile, os.Truncate, github.com/google/renameio/v2/maybe.WriteFile, github.com/google/renameio/v2.WriteFile
 
+// Renames and removals of list files: a list file is moved aside (to "<path>.old") only when its list is deleted, and
+// only such ".old" files are ever removed.
+//@ package-callsite os.Rename(oldpath, newpath) requires moved-aside-only: newpath == oldpath + ".old"
+//@ func (d *DNSFilter) handleFilteringRemoveURL(w http.ResponseWriter, r *http.Request)
+//@   property C14
+//@   callsites-only
+//@   requires nolocks()
+//@   modifies *
+//@ func (d *DNSFilter) refreshFiltersIntl(block bool, allow bool, force bool) (r0 int, r1 bool)
+//@   property C14
+//@   callsites-only
+//@   requires nolocks()
+//@   callsite os.Remove(name) requires old-files-only: name == p + ".old"
+//@   modifies *
+//@ sweep C14 os.Rename, os.Remove, os.RemoveAll
+
 // Copy-back after a refresh: for the list entry that matches a refreshed list (same ID and URL) and was really updated,
 // name, rule count and checksum are all taken over together (a stale checksum would make the next refresh re-download
 // or skip wrongly).  Stated as the invariant of the inner loop over the configured lists.
@@ -86,6 +156,7 @@ package filtering
 // Frame assumption for the copy-back proof: refreshing one list writes that list's entry (and files), nothing of d.
 //@ func (d *DNSFilter) update(flt *FilterYAML) (ok bool, err error)
 //@   trusted
+//@   ensures switches-kept: flt.Enabled == old(flt.Enabled) && flt.URL == old(flt.URL)
 //@   modifies *flt, parseOK, fpos
 //@ func (d *DNSFilter) listsToUpdate(filters *[]FilterYAML, force bool) (toUpd []FilterYAML)
 //@   trusted
@@ -110,6 +181,19 @@ package filtering
 // ---- C06: custom rewrites: precedence, exceptions, only table addresses, visited set ----
 // Vocabulary taken from the property text: CNAME entries before address entries; inside a kind exact names before
 // wildcards; among wildcards the longer (more specific) pattern first.
+// Normal form of a table entry (every entry added, updated or loaded goes through normalize): the pass-through exception
+// entries "A" / "AAAA" carry no address, an address entry carries exactly the address its answer text denotes, anything
+// else is a CNAME.  An exception entry with a left-over address would be answered with that address - one that is not in
+// the table.
+//@ func (rw *LegacyRewrite) normalize() (err error)
+//@   property C06
+//@   nullable rw
+//@   ensures nil-refused: rw == nil ==> err != nil
+//@   ensures exception-has-no-address: rw != nil && (rw.Answer == "A" || rw.Answer == "AAAA") ==> rw.IP == netip.Addr{} && rw.Type == (rw.Answer == "A" ? 1 : 28)
+//@   ensures address-entry: rw != nil && rw.Answer != "A" && rw.Answer != "AAAA" && res1(netip.ParseAddr(rw.Answer)) == nil ==> rw.IP == netip.ParseAddr(rw.Answer) && rw.Type == (netip.ParseAddr(rw.Answer).Is4() ? 1 : 28)
+//@   ensures cname-entry: rw != nil && rw.Answer != "A" && rw.Answer != "AAAA" && res1(netip.ParseAddr(rw.Answer)) != nil ==> rw.Type == 5
+//@   ensures text-kept: rw != nil ==> err == nil && rw.Answer == old(rw.Answer) && rw.Domain == strings.ToLower(old(rw.Domain))
+//@   modifies rw.Domain, rw.IP, rw.Type
 //@ define isCN(r *LegacyRewrite) bool = r.Type == 5
 //@ define isWild(p string) bool = len(p) > 1 && p[0] == '*' && p[1] == '.'
 //@ define hostMatches(e *LegacyRewrite, host string) bool = e.Domain == host || (isWild(e.Domain) && strings.HasSuffix(host, e.Domain[1:]))
